@@ -27,9 +27,9 @@ func VerifH_C04_scanMarshalled() {
 		o := &osm.OSM{Version: "0.6"}
 		n := vRange("elements", 0, 2)
 		for i := 0; i < n; i++ {
-			o.Append(mk(1+vRange("kind", 0, 2), int64(i+1)))
+			o.Append(mk(1+vRange("kind", 0, 5), int64(i))) // ids from 0: zero is a legal id
 		}
-		// the marshaller writes nodes, then ways, then relations
+		// the marshaller writes nodes, ways, relations, changesets, notes, users
 		for _, x := range o.Nodes {
 			want = append(want, x)
 		}
@@ -37,6 +37,15 @@ func VerifH_C04_scanMarshalled() {
 			want = append(want, x)
 		}
 		for _, x := range o.Relations {
+			want = append(want, x)
+		}
+		for _, x := range o.Changesets {
+			want = append(want, x)
+		}
+		for _, x := range o.Notes {
+			want = append(want, x)
+		}
+		for _, x := range o.Users {
 			want = append(want, x)
 		}
 		err = enc.Encode(o)
